@@ -216,7 +216,32 @@ def _field_of_param(R, param):
     return None
 
 
+def separate_resets(R, RID='C06.wiring'):
+    """The two directions are reset independently (server_no_context_takeover / client_no_context_takeover): outside
+    __init__ no method of Deflate re-creates both zlib objects - a merged reset() run for one direction wipes the other
+    direction's window in the middle of the peer's stream."""
+    both = []
+    for fq, fi in sorted(R.prog.funcs.items()):
+        if fi.cls is None or fi.cls.qual != DF or fi.name == '__init__':
+            continue
+        kinds = set()
+        for x in own_nodes(fi.node):
+            if isinstance(x, ast.Call):
+                nm = U(x.func)
+                if nm.endswith('decompressobj'):
+                    kinds.add('inflate')
+                elif nm.endswith('compressobj'):
+                    kinds.add('deflate')
+        if len(kinds) == 2:
+            both.append(fq)
+    R.ob(RID, 'no method re-creates both zlib contexts', not both,
+         '%s creates a new compressor and a new decompressor: called for one direction\'s no_context_takeover it also discards '
+         'the other direction\'s window - the next message that refers back to earlier ones cannot be inflated' % both,
+         func=(both[0] if both else None), node=None, construct='merged context reset %s' % both)
+
+
 def wiring(R):
+    separate_resets(R)
     q = DF + '.from_options'
     g = R.cfg(q)
     rd = ReachingDefs(g)
